@@ -11,4 +11,5 @@ INVARIANT LemmaPolicy
 INVARIANT LemmaClean
 INVARIANT LemmaSocket
 INVARIANT LemmaPoll
+INVARIANT LemmaResume
 CHECK_DEADLOCK FALSE
